@@ -73,6 +73,9 @@ def explore_only() -> Dict[str, List[Dict[str, Any]]]:
         # messages that end in the marker the communication log uses, on sockets with that log switched on
         "comm-log-switched-on": [dict(ep("A", "B", 0, False, c, s("a1EOF"), s("EOF"), s("xEOFyEOF")), comm_log=True),
                                  dict(ep("B", "A", 0, False, c, r, r, r), comm_log=True)],
+        # the three entry points mixed on one socket, with a backlog
+        "mixed-entry-points": [ep("A", "B", 0, False, c, s("a"), ["send:structured", "b"], ["send:silent", "c2"], ["send:structured", "d"]),
+                               ep("B", "A", 0, False, c, r, ["recv:structured", None], ["recv:silent", None], ["recv:structured", None])],      # (each message through the entry point of its kind)
         "structured-running-list": [dict(ep("A", "B", 0, False, c, s("a1"), s("a1+a2"), s("a1+a2+a3")), api="structured-running-list"),
                                     dict(ep("B", "A", 0, False, c, r, r, r), api="structured-running-list")],
         "structured-entry-points": [dict(ep("A", "B", 0, False, c, s("a1"), ["recvnb", None]), api="structured"),
